@@ -61,7 +61,9 @@ func wscenarios(thorough bool) []wscenario {
 	}
 	if thorough {
 		scs = append(scs,
-			wscenario{"1 blob, 3 worker runs, 2 forced cleanups (3 attempts), cleanup pass", []slotSpec{a}, 3, 2, 3, true, wbound()},
+			wscenario{"1 blob, 3 worker runs, 1 forced cleanup (2 attempts), cleanup pass", []slotSpec{a}, 3, 1, 2, true, wbound()},
+			wscenario{"1 blob, 2 worker runs, 1 forced cleanup (3 attempts)", []slotSpec{a}, 2, 1, 3, false, wbound()},
+			wscenario{"1 blob, 2 worker runs, 2 forced cleanups (2 attempts)", []slotSpec{a}, 2, 2, 2, false, wbound()},
 			wscenario{"2 blobs, 2 worker runs, 1 forced cleanup (1 attempt)", []slotSpec{a, b}, 2, 1, 1, false, wbound()},
 		)
 	}
@@ -120,6 +122,7 @@ type wworld struct {
 	cleanupDeleted           bool
 	underFC                  map[*wactor]bool
 	vio                      string
+	vioTrace                 string // the order up to the quiescent point at which the oracle failed
 }
 
 var errHang = errors.New("backend upload failed after hanging (injected)")
@@ -581,7 +584,10 @@ func allWHarnesses() []*vrt.Harness {
 
 var wmarkers = []string{"two-uploads-in-flight=true", "fc-exec-under-worker-upload=true", "worker-upload-failed-under-fc=true", "worker-upload-ok-under-fc=true", "run-under-fc-upload=true", "retry-run=true", "upload-failed=true", "fc-deleted=true", "fc-kept=true", "cleanup-deleted=true"}
 
-func overlapPart(run *evid.Run, thorough bool) {
+// overlapStart starts the explorations of part 4 (side by side with part 3's,
+// each scenario with its own worker processes) and returns the function that
+// waits for them and reports.
+func overlapStart(run *evid.Run, thorough bool) (report func()) {
 	fp := func(v vrt.Violation) string {
 		if strings.HasPrefix(v.Msg, "HARNESS:") {
 			run.Fatal(fmt.Errorf("%s (harness %s, choices %v)", v.Msg, v.Harness, v.Choices))
@@ -595,8 +601,6 @@ func overlapPart(run *evid.Run, thorough bool) {
 	if v := os.Getenv("C31_WBUDGET"); v != "" {
 		fmt.Sscanf(v, "%d", &budget)
 	}
-	need := map[string]int{}
-	total := 0
 	scs := wscenarios(thorough)
 	hs := make([]*vrt.Harness, len(scs))
 	results := make([]*vrt.Result, len(scs))
@@ -620,7 +624,15 @@ func overlapPart(run *evid.Run, thorough bool) {
 			results[i] = vrt.ExploreSharded(hs[i], sc.bound, evid.Workers(), time.Duration(budget)*time.Second)
 		}()
 	}
-	wg.Wait()
+	return func() {
+		wg.Wait()
+		overlapReport(run, scs, hs, results, fp)
+	}
+}
+
+func overlapReport(run *evid.Run, scs []wscenario, hs []*vrt.Harness, results []*vrt.Result, fp func(v vrt.Violation) string) {
+	need := map[string]int{}
+	total := 0
 	for i, sc := range scs {
 		h, res := hs[i], results[i]
 		reportVRT(run, h, sc.bound, res, fp)
